@@ -1105,18 +1105,20 @@ func TestC13_Hammer(t *testing.T) {
 		rounds := rapid.IntRange(400, 2500).Draw(rt, "rounds")
 		pats := make([][]string, n)
 		for i := range pats {
-			pats[i] = rapid.SliceOfN(rapid.SampledFrom([]string{"hot", "hot", "hot", "ctl", "via"}), 1, 3).Draw(rt, "pattern")
+			pats[i] = rapid.SliceOfN(rapid.SampledFrom([]string{"hot", "hot", "hot", "ctl", "via", "viaShort"}), 1, 3).Draw(rt, "pattern")
 		}
 		demand := uint64(n * rounds)
 		sA := c13DrawStart(rt, "startA", demand)
 		w := c13NewWorld(chacha, sA, c13Start{v: 2, hs: 2}, n, false)
 		var wg sync.WaitGroup
+		var refusedShort atomic.Int64
 		gun := make(chan struct{})
 		for id := 0; id < n; id++ {
 			wg.Add(1)
 			go func() {
 				defer wg.Done()
 				nb, c := w.nbs[id], w.conns[id]
+				tiny := make([]byte, 0, header.Len+8) // too small for header + payload + tag: the refused-relay-send path
 				seg := c13TunPacket(1, 8+id).Bytes
 				scratch := make([]byte, header.Len+len(seg)+16)
 				out := make([]byte, 0, 256)
@@ -1134,6 +1136,13 @@ func TestC13_Hammer(t *testing.T) {
 						if p, err := w.f.prepareSendVia(w.hA, w.relay, ad, nb, out[:0], false); err == nil {
 							c.pkts = append(c.pkts, append([]byte{}, p...))
 						}
+					case "viaShort":
+						// a relay send refused for lack of buffer space reserves a counter and seals nothing
+						if p, err := w.f.prepareSendVia(w.hA, w.relay, ad, nb, tiny[:0], false); err == nil {
+							c.pkts = append(c.pkts, append([]byte{}, p...))
+						} else {
+							refusedShort.Add(1)
+						}
 					}
 				}
 			}()
@@ -1145,8 +1154,8 @@ func TestC13_Hammer(t *testing.T) {
 			per[id] = c13Op{Kind: "hot", Segs: rounds}
 		}
 		fail, st := w.analyse(per, lock)
-		if sA.v+demand < RejectAfterMessages && st.emitted != n*rounds {
-			fail = append(fail, fmt.Sprintf("sanity: all counters stay below the ceiling but %d of %d datagrams were emitted", st.emitted, n*rounds))
+		if want := n*rounds - int(refusedShort.Load()); sA.v+demand < RejectAfterMessages && st.emitted != want {
+			fail = append(fail, fmt.Sprintf("sanity: all counters stay below the ceiling but %d of %d datagrams were emitted", st.emitted, want))
 		}
 		desc := fmt.Sprintf("hammer lock=%v chacha=%v senders=%d rounds=%d startA=%s patterns=%v", lock, chacha, n, rounds, c13Rel(sA.v), pats)
 		if len(fail) > 0 {
